@@ -58,6 +58,7 @@ type Exec struct {
 	funcsSeen  map[string]bool
 	lemmaErrors []string
 	pure        int
+	partialMode bool
 	ufuns       map[string]*Ghost
 	retFrame    *Frame
 	hmArrays    map[string]string
@@ -437,7 +438,7 @@ func (x *Exec) assumeTypeInv(st *State, s string, T types.Type) {
 	case *types.Slice:
 		x.assume(st, and(app("<=", "0", app("s_off", s)), app("<=", "0", app("s_len", s)), app("<=", app("s_len", s), app("s_cap", s)),
 			app("<=", "0", app("s_arr", s)), app("<", app("s_arr", s), st.allocCtr),
-			app("<=", app("+", app("s_off", s), app("s_cap", s)), "9223372036854775807"), x.tagFact(app("s_arr", s), T),
+			app("<=", app("+", app("s_off", s), app("s_cap", s)), "281474976710656"), x.tagFact(app("s_arr", s), T), // 2^48: the address space
 			implies(eq(app("s_arr", s), "0"), eq(app("s_cap", s), "0"))))
 	case *types.Pointer, *types.Map:
 		x.assume(st, and(app("<=", "0", s), app("<", s, st.allocCtr), x.tagFact(s, T)))
@@ -559,6 +560,9 @@ func (x *Exec) oblige(st *State, fr *Frame, kind, tag string, in interface{}, id
 	if x.pureEval > 0 {
 		return // evaluating a side-effect free function as a term: obligations are generated elsewhere
 	}
+	if x.partialMode && kind != "ensures" && kind != "assert@call" {
+		return // `partial` contract: only the listed ensures / asserts are claimed for this function
+	}
 	if goal == "true" {
 		// still record trivially-true obligations? no: keep counts honest, record as discharged-by-construction
 		return
@@ -656,6 +660,10 @@ func (x *Exec) finalizeNames() {
 
 func (x *Exec) safety(st *State, fr *Frame, kind string, in ssa.Instruction, idx int, goal, desc string) {
 	if !x.safetyOn {
+		return
+	}
+	if fr != nil && fr.contract != nil && fr.contract.Safety == "off" {
+		x.note("safety obligations switched off by contract for " + funcFull(fr.fn))
 		return
 	}
 	x.oblige(st, fr, kind, "", in, idx, goal, desc)
